@@ -22,6 +22,8 @@ EXPLANATION = (
 
 
 def run(ctx: Ctx) -> None:
+    from ..rules import placement as _placement
+    _placement.rule_noise_placement(ctx)
     from ..rules import effects as _eff
     _eff.rule_weighted_fidelity(ctx)
     from .c07 import rule_wrappers
@@ -56,6 +58,10 @@ def run(ctx: Ctx) -> None:
 
 
 KNOCKOUTS = [
+    Knockout("placement-both-after-or", CBASE, sub_once("                        if after_control and after_target:", "                        if after_control or after_target:"), "noise.placement", "noise must be applied once"),
+    Knockout("placement-one-qubit-before-branch-order", CBASE, sub_once("                        else:\n                            self._apply_additional_noise(\n                                state, op, circuit.n_quantum, q_index\n                            )\n                            self.compile_one_gate(\n                                state,\n                                op,\n                                circuit.n_quantum,\n                                q_index,\n                                classical_registers,\n                            )\n                    elif isinstance(op.noise, nm.ReplacementNoiseBase):", "                        else:\n                            self.compile_one_gate(\n                                state,\n                                op,\n                                circuit.n_quantum,\n                                q_index,\n                                classical_registers,\n                            )\n                            self._apply_additional_noise(\n                                state, op, circuit.n_quantum, q_index\n                            )\n                    elif isinstance(op.noise, nm.ReplacementNoiseBase):"), "noise.placement", "before the gate"),
+    Knockout("placement-no-noise-requires-both-conditions", CBASE, sub_once("                no_noise = no_noise or isinstance(op.noise, nm.NoNoise)", "                no_noise = no_noise and isinstance(op.noise, nm.NoNoise)"), "noise.placement", "compile:"),
+    Knockout("placement-controlled-mixed-drops-control-noise", CBASE, sub_once("                            tmp_noise = [noise_copy[0], nm.NoNoise]\n", "                            tmp_noise = [nm.NoNoise, nm.NoNoise]\n"), "noise.placement", "control noise"),
     Knockout("noisy-gates-target-falls-back-to-control", "graphiq/circuit/circuit_dag.py", sub_once("                        op.noise = [noise_object, noise_object]\n", "                        control_noise = noise_object\n                        target_noise = noise_object\n                        control_noise = mapping.get(name + \"_control\", control_noise)\n                        target_noise = mapping.get(name + \"_target\", control_noise)\n                        op.noise = [control_noise, target_noise]\n"), "paste.incomplete", "_noisy_gates"),
     Knockout("depolarizing-y-replaced-by-phase", NM, sub_once("                transform.y_gate,\n", "                transform.phase_gate,\n"), "noise.pauli-set", "Pauli set"),
     Knockout("depolarizing-dm-two-x", NM, sub_once("                dmf.sigmay(),\n                dmf.sigmaz(),\n            ]\n            kraus_ops_iter = itertools.product(single_qubit_kraus", "                dmf.sigmax(),\n                dmf.sigmaz(),\n            ]\n            kraus_ops_iter = itertools.product(single_qubit_kraus"), "noise.pauli-set", "Pauli set"),
